@@ -146,6 +146,10 @@ func checkC03(c *Check) {
 						Entry: strings.Join(e.Stack, " > ")}
 					c.Obls = append(c.Obls, o)
 				}
+			case "acquire":
+				if e.Detail == "shared" && (e.What == L || isTrackerLevelLock(e.What)) {
+					c.Bad("S2 one-critical-section", fmt.Sprintf("%s: %s taken in shared (read) mode in %s", ep.Name(), e.What, e.Fn), e.Pos, "deliveries that hold the tracker mutex in shared mode run concurrently with each other: a delivery that stores a session, binds a login or writes events is not a critical section any more, and the emitted order equals no sequential order of the deliveries")
+				}
 			case "secondcs":
 				if e.What == L || isTrackerLevelLock(e.What) {
 					c.Bad("S2 one-critical-section", fmt.Sprintf("%s: second acquisition of %s in %s", ep.Name(), e.What, e.Fn), e.Pos, "the delivery is split into two critical sections of "+e.What+" (lock acquired again on a path that already acquired and released it)")
